@@ -347,12 +347,82 @@ def r5_eagle(ctx) -> None:
   ut = ctx.index.need_class('vizier._src.algorithms.designers.eagle_strategy.eagle_strategy_utils.EagleStrategyUtils')
   for name in ('combine_two_parameters', 'perturb_parameter'):
     m = ut.methods[name]
-    tt = unparse(m.node, 0)
-    clamp = ('min(' in tt and 'bounds[1]' in tt) and (('max(' in tt and 'bounds[0]' in tt) or name == 'combine_two_parameters')
-    snap = 'get_closest_element(' in tt or 'sample_categorical(' in tt
-    ctx.check(clamp and snap, 'R5', f'EagleStrategyUtils.{name}', m.node, 'clamped to bounds / snapped to feasible values',
-              f'{name} can return a value outside the (scaled) parameter range or outside the feasible set',
+    bad, rows = _eagle_value_model(m)
+    ctx.count(f'eagle_{name}_model_rows', rows)
+    ctx.check(bad is None, 'R5', f'EagleStrategyUtils.{name}', m.node,
+              f'clamped to bounds / snapped to feasible values on every row of the finite model ({rows} rows)',
+              f'{name} can return a value outside the (scaled) parameter range or outside the feasible set: {bad}',
               construct=name, func=m.qualname)
+
+
+def _eagle_value_model(m: FuncInfo):
+  """Interprets an EagleStrategyUtils value-producing method on a finite model (each parameter type; values at and
+  between the bounds; weights / perturbations far outside [0, 1]; both outcomes of every random draw) and returns
+  (description of the first row whose result leaves the parameter's domain or None, number of rows)."""
+  from vzstatic import pathcond
+  import itertools
+  cfgp = [p for p in m.params if p != 'self'][0]
+  lo, hi = 2, 5
+  fv_num = [2.0, 3.5, 5.0]
+  fv_cat = ['a', 'b', 'c']
+  types = ('DOUBLE', 'INTEGER', 'DISCRETE', 'CATEGORICAL')
+  rows = 0
+  prefixes = set()
+  for x in ast.walk(m.node):
+    d = dotted(x) if isinstance(x, ast.Attribute) else None
+    if d and d.rsplit('.', 1)[-1] in types + ('CUSTOM',) and 'ParameterType' in d:
+      prefixes.add(d.rsplit('.', 1)[0])
+  if not prefixes:
+    raise AnalysisError(f'{m.name}: no ParameterType dispatch found')
+  others = [p for p in m.params if p not in ('self', cfgp)]
+  for T in types:
+    fv = fv_cat if T == 'CATEGORICAL' else fv_num
+    vals = fv_cat[:2] if T == 'CATEGORICAL' else ([2, 5, 3] if T == 'INTEGER' else [2.0, 5.0, 3.5])
+    for v1, v2, w, coin in itertools.product(vals, vals, (-1000.0, -0.5, 0.0, 0.3, 1.0, 1000.0), (0, 1)):
+      env = {f'{cfgp}.type': T, f'{cfgp}.bounds': (lo, hi), f'{cfgp}.bounds[0]': lo, f'{cfgp}.bounds[1]': hi,
+             f'{cfgp}.feasible_values': list(fv), f'{cfgp}.name': 'p'}
+      for pre in prefixes:
+        for t_ in types + ('CUSTOM',):
+          env[f'{pre}.{t_}'] = t_
+      # value-like and weight-like parameters by position: dict-like params are indexed by the config's name
+      for p in others:
+        env[p] = w
+      if m.name == 'combine_two_parameters':
+        env[f'{others[0]}[{cfgp}.name].value'] = v1
+        env[f'{others[1]}[{cfgp}.name].value'] = v2
+        env[others[2]] = w
+      else:
+        env[others[0]] = v1
+        env[others[1]] = w
+
+      def hook(c, env_, coin=coin, fv=fv):
+        d = (dotted(c.func) or '').rsplit('.', 1)[-1]
+        if d == 'get_closest_element' and len(c.args) == 2:
+          arr, x = pathcond.neval(c.args[0], env_), pathcond.neval(c.args[1], env_)
+          return min(arr, key=lambda a: abs(a - x))
+        if d == 'sample_categorical':
+          return pathcond.neval(c.args[1], env_)[coin]
+        if d == 'sample_uniform':
+          return 0.0 if coin else 0.999999
+        if d == 'sample_bernoulli' and len(c.args) == 4:
+          return pathcond.neval(c.args[2 + coin], env_)
+        if d == 'round' and len(c.args) == 1:
+          return round(pathcond.neval(c.args[0], env_))
+        return NotImplemented
+      env['__callhook__'] = hook
+      rows += 1
+      try:
+        got = pathcond.run_concrete(m.node, env)
+      except pathcond.Raised:
+        continue
+      except pathcond.NoValue as e:
+        raise AnalysisError(f'{m.name}: cannot be evaluated on the finite model ({e})')
+      in_dom = (got in fv) if T in ('DISCRETE', 'CATEGORICAL') else (isinstance(got, (int, float)) and lo <= got <= hi and
+                                                                      (T != 'INTEGER' or float(got).is_integer()))
+      if not in_dom:
+        return (f'type {T}, bounds ({lo}, {hi}), feasible_values {fv if T in ("DISCRETE", "CATEGORICAL") else "-"}, values {v1!r}/{v2!r}, '
+                f'weight or perturbation {w}: result {got!r}'), rows
+  return None, rows
 
 
 # ----------------------------------------------------------------------- R8
